@@ -7,7 +7,7 @@ use std::collections::BTreeMap;
 pub const UNWRITTEN: u32 = u32::MAX;
 
 /// Rectangular fill kept symbolically (only for framebuffers too large for a dense map).
-#[derive(Clone, Debug, PartialEq, Eq)]
+#[derive(Clone, Copy, Debug, PartialEq, Eq)]
 pub struct FillRec {
     pub seq: u64,
     /// physical cell rectangle, inclusive
@@ -84,6 +84,32 @@ impl Mem {
         self.seq += 1;
         self.writes += (x1 - x0) as u64 * (y1 - y0) as u64; // approximate, informational
         self.fills.push(FillRec { seq: self.seq, x0, y0, x1, y1, val: v });
+        // coalesce: a fill sent in several chunks (row by row, or in runs that end mid-row) must not cost one record
+        // per chunk.  Two records written directly after each other (consecutive sequence numbers, so no cell
+        // write lies between them) with the same value merge exactly when they are aligned and adjacent.
+        while self.fills.len() >= 2 {
+            let n = self.fills.len();
+            let (a, b) = (self.fills[n - 2], self.fills[n - 1]);
+            if a.val != b.val || b.seq != a.seq + 1 {
+                break;
+            }
+            let merged = if a.x0 == b.x0 && a.x1 == b.x1 && (a.y1 as u32 + 1 == b.y0 as u32 || b.y1 as u32 + 1 == a.y0 as u32) {
+                Some((a.x0, a.y0.min(b.y0), a.x1, a.y1.max(b.y1)))
+            } else if a.y0 == b.y0 && a.y1 == b.y1 && (a.x1 as u32 + 1 == b.x0 as u32 || b.x1 as u32 + 1 == a.x0 as u32) {
+                Some((a.x0.min(b.x0), a.y0, a.x1.max(b.x1), a.y1))
+            } else {
+                None
+            };
+            match merged {
+                Some((x0, y0, x1, y1)) => {
+                    self.fills.pop();
+                    // keep the earlier record's position in the order, with the later sequence number free again
+                    self.fills[n - 2] = FillRec { seq: a.seq, x0, y0, x1, y1, val: a.val };
+                    self.seq = a.seq;
+                }
+                None => break,
+            }
+        }
     }
     pub fn get(&self, x: u16, y: u16) -> u32 {
         if self.is_dense() {
@@ -690,30 +716,45 @@ impl Ctl {
         let ww = (ec - sc) as u64 + 1;
         let wh = (ep - sp) as u64 + 1;
         let area = ww * wh;
-        let at_start = self.ptr == (sc, sp) && !self.full;
-        if !self.mem.is_dense() && at_start && count > 4096 {
-            // symbolic: full rows as one rectangle, remainder row as another
-            let n = count.min(area);
-            let rows = n / ww;
-            let rem = n % ww;
-            if rows > 0 {
-                self.sym_fill(sc, sp, ec, sp + (rows - 1) as u16, val);
+        if !self.mem.is_dense() && !self.full && count > 4096 {
+            // symbolic, from wherever the write pointer stands: rest of the current row, full rows, remainder row
+            let (pc, pr) = self.ptr;
+            let pos = (pr - sp) as u64 * ww + (pc - sc) as u64;
+            let remaining = area - pos;
+            let n = count.min(remaining);
+            let mut left = n;
+            let (mut cc, mut rr) = (pc as u64, pr as u64);
+            if cc != sc as u64 {
+                let k = left.min(ec as u64 - cc + 1);
+                self.sym_fill(cc as u16, rr as u16, (cc + k - 1) as u16, rr as u16, val);
+                left -= k;
+                cc += k;
+                if cc > ec as u64 {
+                    cc = sc as u64;
+                    rr += 1;
+                }
             }
-            if rem > 0 {
-                let r = sp + rows as u16;
-                self.sym_fill(sc, r, sc + (rem - 1) as u16, r, val);
+            let rows = left / ww;
+            if rows > 0 {
+                self.sym_fill(sc, rr as u16, ec, (rr + rows - 1) as u16, val);
+                rr += rows;
+                left -= rows * ww;
+            }
+            if left > 0 {
+                self.sym_fill(sc, rr as u16, (sc as u64 + left - 1) as u16, rr as u16, val);
+                cc = sc as u64 + left;
             }
             self.n_pixels += count;
             self.cur_pixels += count;
-            if n == area {
+            if n == remaining {
                 self.full = true;
                 self.ptr = (sc, sp);
             } else {
-                self.ptr = (sc + rem as u16, sp + rows as u16);
+                self.ptr = (cc as u16, rr as u16);
             }
-            if count > area {
+            if count > remaining {
                 self.overrun_reported = true;
-                self.viol(Viol::Overrun { extra_pixels: count - area });
+                self.viol(Viol::Overrun { extra_pixels: count - remaining });
             }
             return;
         }
